@@ -226,6 +226,10 @@ def _run_path(interp: Interp, ctx: Ctx, c: dict, key: str, rep: FunctionReport):
             kwargs[p] = loc[p]
     qn = qual
     try:
+        interp.bind_params(f, args, kwargs, f.gl)
+    except PyRaise as e:
+        raise Unsupported(f"contract arguments do not match the function's signature ({e.msg})")
+    try:
         result = interp.call_ifunc(f, args, kwargs, force_inline=True)
     except PyRaise as e:
         rep.paths_raising += 1
